@@ -198,6 +198,29 @@ pub fn run(ctx: &Ctx) -> i32 {
         rep.extra.insert("small_significand_sweep".into(), json!({"w_below": wmax, "q_range": [-30, 40], "stride": stride, "offset": off, "points": n, "complete": stride == 1}));
         sweep_distinct += n;
     }
+    // 1c. every (w, q) whose first Eisel-Lemire product has low word u64::MAX (constructed by modular
+    // inversion, gen::lemire_lo_max_pairs): the stage's "failed to approximate" fallback
+    {
+        let pairs = gen::lemire_lo_max_pairs();
+        let n = pairs.len() as u64 * 4;
+        let r = run_sweep(n, ctx.threads.min(4), |i, stats| {
+            let (w, q) = pairs[(i / 4) as usize];
+            let fmt = if i % 2 == 0 { Fmt::F64 } else { Fmt::F32 };
+            let t = (i % 4) >= 2;
+            let w = if t { w.min(u64::MAX - 1) } else { w };
+            check_one(fmt, w, q, t, stats)?;
+            stats.sample("lemire lo==MAX", || json!({"w": w, "q": q, "truncated": t, "format": fmt.name(), "outside_safe_exponent_range": !(-27..=55).contains(&q)}));
+            Ok(())
+        });
+        sweep_distinct += r.stats.evaluations;
+        rep.absorb(r);
+        rep.stats.class("lemire lo==MAX (enumerated)");
+        rep.extra.insert(
+            "lemire_lo_max".into(),
+            json!({"pairs": pairs.len(), "outside_safe_exponent_range": pairs.iter().filter(|(_, q)| !(-27..=55).contains(q)).count(),
+                   "nineteen_digit_decimal_significands": pairs.iter().filter(|(w, _)| *w < 10_000_000_000_000_000_000).count()}),
+        );
+    }
     // 2. generated cases
     let cases = ctx.cases(1_500_000, 100_000_000);
     let r = run_recipes(ctx.seed, cases, ctx.threads, 11, |r, stats| {
